@@ -388,7 +388,7 @@ func (Prop) Run(p *core.Plan) *core.Result {
 	res := &core.Result{Faults: map[string]int{}, Probes: map[string]int{}}
 	newRaceReports()
 	races0 := raceErrors()
-	world := core.BeginWorld(p, 3000000, false)
+	world := core.BeginWorld(p, 10000000, false)
 	sh := &shared{w: &w, base: world.BaseTime}
 	sh.calls, sh.checks = plenv.Tables(nil, nil)
 	// load phase (single task)
@@ -430,7 +430,7 @@ func (Prop) Run(p *core.Plan) *core.Result {
 		}
 		for i, ops := range w.Tasks {
 			i, ops := i, ops
-			simrt.SetBudget(3000000) // per task
+			simrt.SetBudget(10000000) // per task
 			pv, blown := core.Guard(func() { solo[i] = shSolo.doOps(ops) })
 			if blown {
 				return "solo reference exceeded the step budget"
@@ -453,7 +453,7 @@ func (Prop) Run(p *core.Plan) *core.Result {
 	}
 	concBlown := false
 	if w.ConcFirst {
-		simrt.SetBudget(3000000 * uint64(len(w.Tasks)))
+		simrt.SetBudget(10000000 * uint64(len(w.Tasks)))
 		runConc()
 		concBlown = world.Blown
 		if msg := runSolo(); msg != "" {
@@ -465,7 +465,7 @@ func (Prop) Run(p *core.Plan) *core.Result {
 			simrt.End()
 			return &core.Result{Infra: msg}
 		}
-		simrt.SetBudget(3000000 * uint64(len(w.Tasks)))
+		simrt.SetBudget(10000000 * uint64(len(w.Tasks)))
 		runConc()
 		concBlown = world.Blown
 	}
